@@ -202,28 +202,28 @@ def replay_lifecycle(ctx, stage, cands):
     """complete(): put the stage in front of --merge, whose only output happens in complete(); start(): csv header"""
     from .cli import run_jawk, show
     for c in cands:
-        if c.unmodelled:
-            c.status = 'inconclusive'; continue
         if stage not in STAGE_ARGV:
             c.status = 'unit'; continue
         if c.role.startswith('complete'):
-            argv = STAGE_ARGV[stage] + ['--merge']
-            r = run_jawk(ctx, argv, b'{"a":1}')
-            good = r['rc'] == 0 and r['stdout'].strip().startswith(b'[')
-            c.replay = {'argv': argv, 'stdin': '{"a":1}', 'expected': 'one array row (emitted by the merger in complete())', 'actual_stdout': show(r['stdout']), 'rc': r['rc']}
+            good = True
+            variants = [STAGE_ARGV[stage]] + ([['--skip', '3'], ['--skip', '1', '--take', '1'], ['--take', '0']] if stage == 'Limiter' else [])
+            for sa in variants:
+                argv = sa + ['--merge']
+                r = run_jawk(ctx, argv, b'{"a":1}')
+                good = r['rc'] == 0 and r['stdout'].strip().startswith(b'[')
+                c.replay = {'argv': argv, 'stdin': '{"a":1}', 'expected': 'one array row (emitted by the merger in complete())', 'actual_stdout': show(r['stdout']), 'rc': r['rc']}
+                if not good: break
         else:
             argv = STAGE_ARGV[stage] + (['--select', '.a=a'] if stage != 'Selection' else []) + ['-o', 'csv', '--headers']
             r = run_jawk(ctx, argv, b'{"a":1}')
             good = r['rc'] == 0 and r['stdout'].startswith(b'"a"')
             c.replay = {'argv': argv, 'stdin': '{"a":1}', 'expected': 'header row "a" first', 'actual_stdout': show(r['stdout']), 'rc': r['rc']}
-        c.status = 'not-reproduced' if good else 'reproduced'
+        c.status = 'unit' if good else 'reproduced'
 
 
 def replay_limiter(ctx, cands):
     """native replay: build the concrete Limiter and run the real process() against a scripted successor"""
     for c in cands:
-        if c.unmodelled:
-            c.status = 'inconclusive'; continue
         mv = c.model
         if not mv or 'skip' not in mv:
             c.status = 'unit'; continue
@@ -234,12 +234,14 @@ def replay_limiter(ctx, cands):
         elif mv.get('has_limit') == 1 and mv['passed'] >= mv['limit']: exp = ('Break', 0, mv['skipped'], mv['passed'])
         elif mv.get('has_limit') == 1: exp = ('Break' if mv['passed'] + 1 >= mv['limit'] else 'Continue', 1, mv['skipped'], mv['passed'] + 1)
         else: exp = ('Continue', 1, mv['skipped'], mv['passed'])
+        script = 'E' if c.role == 'err-swallowed' else 'C'
+        if script == 'E' and exp[1] == 1: exp = ('Err', 1, mv['skipped'], mv['passed'])
         code = '#[cfg(test)]\nmod verif_replay {\n    use super::*;\n' + RUST_MOCK_NEXT + f'''
     #[test]
     fn verif_replay_limiter() {{
         let log = VRc::new(VRefCell::new(Vec::new()));
         let mut l = Limiter {{ skip: {mv["skip"]}u64, limit: {lim}, skipped: {mv["skipped"]}u64, passed: {mv["passed"]}u64,
-                              next: Box::new(VNext {{ log: log.clone(), script: vec!['C'], at: 0 }}) }};
+                              next: Box::new(VNext {{ log: log.clone(), script: vec!['{script}'], at: 0 }}) }};
         let r = std::panic::catch_unwind(std::panic::AssertUnwindSafe(|| l.process(crate::processor::Context::new_empty())));
         match r {{
             Ok(r) => println!("REPLAY ret={{}} forwarded={{}} skipped={{}} passed={{}}", vdec(&r), log.borrow().len(), l.skipped, l.passed),
@@ -257,5 +259,8 @@ def replay_limiter(ctx, cands):
             continue
         got = (m.group(1), int(m.group(2)), int(m.group(3)), int(m.group(4)))
         c.replay = {'kind': 'unit test appended to src/limits.rs', 'pre_state': mv, 'expected(ret,forwarded,skipped,passed)': exp, 'actual': got}
-        c.status = 'reproduced' if got != exp else 'not-reproduced'
+        if script == 'E':
+            c.status = 'reproduced' if got[0] != 'Err' else 'not-reproduced'
+        else:
+            c.status = 'reproduced' if got != exp else 'not-reproduced'
 
